@@ -498,6 +498,17 @@ var catalogue = []tamper{
 		sg.v = new(big.Int).Add(sg.v, new(big.Int).Lsh(big.NewInt(int64(1+x.t.Int(3))), 64))
 		return sg, true
 	})},
+	{"v-mirrored-below-chain-offset", mECDS, true, sigEdit(func(x *tamperCtx, wt *wireTx, sg sigTriple) (sigTriple, bool) {
+		// V - (2p+8) = -(27+recid): a recovery byte taken as an absolute value
+		// would come out the same (seeded change C08-7); also the neighbours
+		rec := new(big.Int).Sub(sg.v, vBase(x.w.p))
+		d := new(big.Int).Mul(big.NewInt(2), new(big.Int).Add(big.NewInt(27), rec))
+		sg.v = new(big.Int).Sub(sg.v, d)
+		if x.t.Bool(1, 4) {
+			sg.v.Add(sg.v, big.NewInt(int64(x.t.Int(3)-1)))
+		}
+		return sg, true
+	})},
 	{"v-plus-256", mECDS, true, sigEdit(func(x *tamperCtx, wt *wireTx, sg sigTriple) (sigTriple, bool) {
 		// recovery byte computed modulo 256 would come out the same
 		sg.v = new(big.Int).Add(sg.v, big.NewInt(256))
